@@ -29,6 +29,11 @@ const SHAPES = {
   identOptsPartial: { args: (s) => `${s}, uName`, user: ['name'] },
   callOpts: { args: (s) => `${s}, mkOpts()`, user: ['props', 'emits', 'name'] },
   condOpts: { args: (s) => `${s}, flag ? uAll : uName`, user: ['props', 'emits', 'name'] },
+  // accessor / method members count as user-written options too
+  propsGetter: { args: (s) => `${s}, { get props() { return uProps; } }`, user: ['props'] },
+  propsMethod: { args: (s) => `${s}, { props() { return 1; }, inheritAttrs: false }`, user: ['props'] },
+  nameGetter: { args: (s) => `${s}, { get ['name']() { return 'Own'; } }`, user: ['name'] },
+  emitsGetter: { args: (s) => `${s}, { get "emits"() { return uEmits; } }`, user: ['emits'] },
   // further positional arguments stay where they are
   threeIdent: { args: (s) => `${s}, uName, 'third'`, user: ['name'], third: true },
   threeObj: { args: (s) => `${s}, { inheritAttrs: false }, 'third', 4`, user: [], third: true },
